@@ -248,6 +248,9 @@ func (c16) Run(e *Env) {
 	bwe.OnTargetBitrateChange(func(v int) {
 		st.bound("the rate given to the change callback", v)
 		st.cbs = append(st.cbs, c16Pub{v, e.S.Step()})
+		// an application's callback naturally asks the estimator
+		st.bound("GetTargetBitrate() (inside the change callback)", bwe.GetTargetBitrate())
+		bwe.GetStats()
 	})
 	// ---- the path
 	var wire []*c16Pkt
